@@ -139,3 +139,46 @@ sub('vector_dense_float64.go','''  r := make([]float64, v.Dim())
   copy(r, v)
   return r''','''  r := append([]float64(nil), v...)
   return r''')
+# dense index(): the bounds test split into two statements and the branches written with an early return
+sub('matrix_dense_float64.go','''  if i < 0 || j < 0 || i >= matrix.rows || j >= matrix.cols {
+    panic(fmt.Errorf("index (%d,%d) out of bounds for matrix of dimension %dx%d", i, j, matrix.rows, matrix.cols))
+  }
+  if matrix.transposed {
+    return (matrix.colOffset + j)*matrix.rowMax + (matrix.rowOffset + i)
+  } else {
+    return (matrix.rowOffset + i)*matrix.colMax + (matrix.colOffset + j)
+  }''','''  if j < 0 || j >= matrix.cols || i >= matrix.rows || i < 0 {
+    panic(fmt.Errorf("index (%d,%d) out of bounds for matrix of dimension %dx%d", i, j, matrix.rows, matrix.cols))
+  }
+  if !matrix.transposed {
+    return (i + matrix.rowOffset)*matrix.colMax + j + matrix.colOffset
+  }
+  return (j + matrix.colOffset)*matrix.rowMax + i + matrix.rowOffset''')
+# EM step job: thread id taken once into a local
+sub('statistics/generic/mixture_em.go','''    gammaTmp   := tmp[p.GetThreadId()].gammaTmp
+    gamma      := tmp[p.GetThreadId()].gamma
+    logWeights := tmp[p.GetThreadId()].logWeights''','''    tid := p.GetThreadId()
+    gammaTmp   := tmp[tid].gammaTmp
+    gamma      := tmp[tid].gamma
+    logWeights := tmp[tid].logWeights''')
+# sparse vector JSON: field order of the wire struct changed consistently on both sides
+sub('vector_sparse_float64.go','''  r := struct{
+    Index []int
+    Value []float64
+    Length int}{}
+  for it := obj.ConstIterator()''','''  r := struct{
+    Length int
+    Index []int
+    Value []float64}{}
+  for it := obj.ConstIterator()''')
+# sparse vector VaddV (generic): iterate with a differently named iterator variable and hoist a declaration
+import re as _re
+p=D+'/vector_sparse_float64_math.go'; s=open(p).read()
+m=_re.search(r'func \(r \*SparseFloat64Vector\) VaddV\(a, b ConstVector\) Vector \{.*?\n\}\n', s, _re.S)
+if m:
+    body=m.group(0)
+    nb=body.replace('it.','jt.').replace('it :=','jt :=').replace('it;','jt;')
+    s=s.replace(body,nb); open(p,'w').write(s)
+# AVL Next: staleness test with the operands of || swapped
+sub('avl-tree.go','obj.node.Deleted || obj.value != obj.node.Value','obj.value != obj.node.Value || obj.node.Deleted')
+# Real64 Set: local for the order
